@@ -74,7 +74,8 @@ def run(ctx, shared=True):
     from . import c07 as _c07
     if shared:
         _reuse(ctx, _c07.run, ("C07.opts",), "C06tgt", "option rule shared with C07: a target-efficiency setter that leaves the ramp flag and the stored value inconsistent makes "
-               "current_target_efficiency index a float (the run raises) or use a stale ramp")
+               "current_target_efficiency index a float (the run raises) or use a stale ramp",
+               only=lambda f: "routing|" not in f.key)
     if shared:
         _reuse(ctx, _c07.run, ("C07.eff", "C07.init"), "C06eff", "efficiency rule shared with C07: the bisection can only advance if the efficiency it compares with the target is ESS / (size of the population "
                "it was computed on); divided by anything larger it stays below the target for every temperature and the schedule never moves")
